@@ -184,8 +184,10 @@ def finding_matches(entry, prop, unit, clause, witness):
     import fnmatch
     eu = entry.get("unit", "")
     unit_ok = eu == unit or (any(ch in eu for ch in "*?") and fnmatch.fnmatchcase(unit, eu))
+    ew = entry.get("witness", "")
+    wit_ok = ew in (witness, "*") or (any(ch in ew for ch in "*?[") and fnmatch.fnmatchcase(str(witness), ew))
     return (entry.get("status") == "finding" and entry.get("property") == prop and unit_ok
-            and entry.get("clause") == clause and entry.get("witness") in (witness, "*"))
+            and entry.get("clause") == clause and wit_ok)
 
 
 def run_property(prop, tier="quick", seed=0, extra_checks=None, level_text=None, only=None):
